@@ -30,6 +30,23 @@ type guardSpec struct {
 	Atoms    func(in ssa.Instruction) (name string, ok bool) // instruction is an atom
 	Classify func(in ssa.Instruction) string                 // "" = keep going; else terminal class
 	Event    func(in ssa.Instruction) string                 // "" = none; else record
+	// Descend: also evaluate synchronous calls to same-package module helpers (an extracted "report and return" step):
+	// the helper's events are appended, a classification inside it is terminal. Bind maps the helper's parameters to the
+	// caller's argument values so that Event/Classify can compare against the root function's parameters (resolve).
+	Descend bool
+	Bind    map[ssa.Value]ssa.Value
+}
+
+// resolve follows parameter bindings established while descending into helpers.
+func (s *guardSpec) resolve(v ssa.Value) ssa.Value {
+	for i := 0; i < 4; i++ {
+		w, ok := s.Bind[strip(v)]
+		if !ok {
+			return strip(v)
+		}
+		v = w
+	}
+	return strip(v)
 }
 
 func (p *Program) guardEval(fn *ssa.Function, spec guardSpec, cell map[string]gval) []guardOutcome {
@@ -43,6 +60,7 @@ func (p *Program) guardEvalDepth(fn *ssa.Function, spec guardSpec, cell map[stri
 		env       map[ssa.Value]gval
 		events    []string
 		depth     int
+		idx       int // first instruction of blk to evaluate (forks resume mid-block)
 	}
 	var walk func(s state)
 	seenOut := map[string]bool{}
@@ -80,7 +98,8 @@ func (p *Program) guardEvalDepth(fn *ssa.Function, spec guardSpec, cell map[stri
 			emit("depth-exceeded", s.events)
 			return
 		}
-		for _, in := range s.blk.Instrs {
+		for ii := s.idx; ii < len(s.blk.Instrs); ii++ {
+			in := s.blk.Instrs[ii]
 			if name, ok := spec.Atoms(in); ok {
 				if v, isV := in.(ssa.Value); isV {
 					s.env[v] = cell[name]
@@ -177,6 +196,35 @@ func (p *Program) guardEvalDepth(fn *ssa.Function, spec guardSpec, cell map[stri
 			if cl := spec.Classify(in); cl != "" {
 				emit(cl, s.events)
 				return
+			}
+			// extracted step: evaluate the helper over the same cell, continue after the call once per distinct outcome
+			if c, ok := in.(*ssa.Call); ok && spec.Descend && depthLeft > 0 {
+				if cal := c.Call.StaticCallee(); cal != nil && cal != fn && p.inModule(cal) && len(cal.Blocks) > 0 && fnPkg(cal) == fnPkg(fn) && cal.Signature.Results().Len() == 0 {
+					if spec.Bind != nil {
+						args := c.Call.Args
+						for pi, prm := range cal.Params {
+							if pi < len(args) {
+								spec.Bind[prm] = args[pi]
+							}
+						}
+					}
+					outs := p.guardEvalDepth(cal, spec, cell, depthLeft-1)
+					for _, o := range outs {
+						ev := append(append([]string(nil), s.events...), o.Events...)
+						if o.Class != "return" {
+							emit(o.Class, ev)
+							continue
+						}
+						env2 := map[ssa.Value]gval{}
+						for kk, vv := range s.env {
+							env2[kk] = vv
+						}
+						walk(state{blk: s.blk, prev: s.prev, env: env2, events: ev, depth: s.depth + 1, idx: ii + 1})
+					}
+					if len(outs) > 0 {
+						return
+					}
+				}
 			}
 			if ret, ok := in.(*ssa.Return); ok {
 				cls := "return"
